@@ -210,7 +210,27 @@ class Recorder:
         self.snapshots = True
         self.want_extras = bool(scn.get('cfg', {}).get('extras', False))
         self.done_pkgs = set()
+        self.ledger = {}
+        self.ledger_seen = {}
+        self.removed_seen = {}
         self.want_sweep = None
+
+    def raw_cum(self, mid, pt):
+        """cumulative traded ladder {selk: {price_c: size_p}} of the scenario's line (mid, pt)"""
+        for m in self.scn["markets"]:
+            if m["id"] == mid:
+                cum = None
+                # the stream file carries deltas; the scenario holds the full ladder per update and
+                # per runner (absent runner = unchanged), so fold the lines up to pt
+                acc = {}
+                for u in m["updates"]:
+                    if u["pt"] > pt:
+                        break
+                    for sel, b in u.get("books", {}).items():
+                        if "trd" in b:
+                            acc[str(sel)] = {pence(p): pence(v) for p, v in b["trd"]}
+                return acc
+        return None
 
     # --- labelling
     def label_order(self, order, label=None):
@@ -298,6 +318,9 @@ class Recorder:
             "red": self._p(red) if red else 0,
             "newp": self._p(newp) if newp else 0,
             "nlog": len(o.status_log),
+            "selk": str(o.selection_id),
+            "client": o.client.username if o.client is not None else "",
+            "bseq": (list(mk.blotter._orders.values()).index(o) if inbl else -1),
         }
 
     def extra_order(self, o):
@@ -367,6 +390,7 @@ class Recorder:
             "bsprec": bool(mb.bsp_reconciled) if mb is not None else False,
             "closed": bool(mk.closed),
             "pt": ms_of(mb.publish_time_epoch) if mb is not None else -1,
+            "removed": sorted(str(r.selection_id) for r in mb.runners if r.status == "REMOVED") if mb is not None else [],
         }
 
     def proj_pkg(self, p):
@@ -398,8 +422,14 @@ class Recorder:
                 return lab
         return "t?" + str(trade_id)[:4]
 
+    def lat(self):
+        return {"place": int(round(fconfig.place_latency * 1000)), "cancel": int(round(fconfig.cancel_latency * 1000)),
+                "update": int(round(fconfig.update_latency * 1000)), "replace": int(round(fconfig.replace_latency * 1000))}
+
     def step(self, ev, **args):
         rec = {"ev": ev, "a": args, "trans": self.trans, "reqs": self.reqs, "pkgs": self.pkgs}
+        if ev == "cb":
+            rec["lat"] = self.lat()
         rec["st"] = self.proj() if self.snapshots else {}
         if self.want_extras:
             rec["x"] = self.extras()
@@ -576,6 +606,8 @@ def do_action(rec, strat, market, txn, a):
                 maxlive=int(min(strat.max_live_trade_count, 10**6)),
                 pendorders=bool(trade.pending_orders),
                 mver=(_mver(a, market) if _mver(a, market) is not None else -1),
+                selk=str(order.selection_id),
+                client=(txn._client.username if txn is not None else rec.flumine.clients.get_default().username),
             )
             q["before"] = snapshot_req(rec, order)
             kw = {}
@@ -749,6 +781,7 @@ def instrument(rec, patches):
                         persok=bool(mk.market_book.market_definition.persistence_enabled),
                         rlab=rlab,
                         minbsp=pence(order_package.client.min_bsp_liability),
+                        lat=rec.lat(),
                     )
             return execute
         return maker
@@ -789,6 +822,29 @@ def instrument(rec, patches):
     def mk_mw(orig):
         def __call__(self, market):
             seen = list(self._runner_removals)
+            mid = market.market_id
+            mb = market.market_book
+            # independent ledger of cumulative traded volume, rebuilt from the scenario's raw lines
+            pt = ms_of(mb.publish_time_epoch)
+            acc = rec.raw_cum(mid, pt) or {}
+            prev = rec.ledger.get(mid, {})
+            cur, rawdelta = {}, {}
+            for r in mb.runners:
+                if r.status != "ACTIVE":
+                    continue
+                sk = str(r.selection_id)
+                cur[sk] = acc.get(sk, {})
+                if sk in prev:  # volume traded since the runner was last seen by the middleware
+                    rawdelta[sk] = [[price, v - prev[sk].get(price, 0)] for price, v in sorted(cur[sk].items()) if v - prev[sk].get(price, 0) > 0]
+                else:
+                    rawdelta[sk] = []
+            for sk, lad in prev.items():
+                cur.setdefault(sk, lad)
+            rec.ledger[mid] = cur
+            prev_removed = rec.removed_seen.get(mid, set())
+            now_removed = {str(r.selection_id): (pence(r.adjustment_factor) if r.adjustment_factor is not None else -1) for r in mb.runners if r.status == "REMOVED"}
+            newly = [[k, v] for k, v in sorted(now_removed.items()) if k not in prev_removed]
+            rec.removed_seen[mid] = set(now_removed.keys())
             try:
                 return orig(self, market)
             finally:
@@ -799,11 +855,14 @@ def instrument(rec, patches):
                     "mw",
                     mid=market.market_id,
                     traded=an,
+                    rawdelta=rawdelta,
                     book=proj_book(market.market_book),
                     mtype=market.market_type or "NA",
                     iso=bool(fconfig.simulated_strategy_isolation),
-                    removals=[[r[0], pence(r[2]) if r[2] is not None else -1] for r in self._runner_removals if r not in seen],
+                    removals=[[str(r[0]), pence(r[2]) if r[2] is not None else -1] for r in self._runner_removals if r not in seen],
+                    newly_removed=newly,
                     minbsp={c.username: pence(c.min_bsp_liability) for c in rec.flumine.clients},
+                    active=bool(market.blotter.active),
                 )
         return __call__
 
